@@ -86,7 +86,9 @@ func (v *V1) GetRecordSize(buf []byte, startFileOffset uint32) (payloadSize uint
 
 func (v *V1) ReadHeaderWithValidation(buf []byte, startFileOffset uint32) (payloadSize uint32, previousCrc uint32, payloadCrc uint32, err error) {
 	bufSize := uint32(len(buf))
-	if startFileOffset >= bufSize {
+	// The header itself must fit: when the records end less than a header
+	// short of the end of the segment, there is no further record
+	if uint64(startFileOffset)+uint64(v.HeaderSize) > uint64(bufSize) {
 		return payloadSize, previousCrc, payloadCrc, errors.Wrapf(ErrOffsetOutOfBounds,
 			"expected payload size: %d. actual buf size: %d ", startFileOffset+v1PayloadSizeLen, bufSize)
 	}
